@@ -164,6 +164,7 @@ class Verifier(Interp):
                 raise ProgExc(_exc_class(exc))
         res = self.make_result(c, fr)
         vars["result"] = res
+        self.call_log[-1][1]["__result__"] = res  # callarg(name, j, "__result__") in clauses
         for j, cl in enumerate(c.ensures):
             lab, text = split_label(cl, f"post{j}")
             if isinstance(text, str) and ("ncalls(" in text or "callarg(" in text):
